@@ -87,6 +87,15 @@ def _make_source(root, scn):
         files = _files("raw")
         _write_tree(src, files)
         expected = dict(files)
+        # a file of the dataset that is a relative symlink to a shared file OUTSIDE the dataset folder: the local copy must
+        # hold its bytes (a re-created relative link would dangle on the local side)
+        shared = root / "global_shared" / "vocab.bin"
+        shared.parent.mkdir(parents=True, exist_ok=True)
+        shared.write_bytes(b"shared vocabulary \x00\x01\x02" * 9)
+        link = src / "d1" / "vocab_link.bin"
+        if not link.exists():
+            os.symlink(os.path.relpath(shared, link.parent), link)
+        expected["d1/vocab_link.bin"] = shared.read_bytes()
     elif fmt == "zip":
         files = _files("zip")
         src.parent.mkdir(parents=True, exist_ok=True)
@@ -134,7 +143,10 @@ def _snapshot(dst):
     out = {}
     for p in sorted(dst.rglob("*")):
         r = str(p.relative_to(dst))
-        out[r] = None if p.is_dir() else p.read_bytes()
+        if p.is_symlink() and not p.exists():
+            out[r] = b"<dangling symlink -> " + os.readlink(p).encode() + b">"
+        else:
+            out[r] = None if p.is_dir() else p.read_bytes()
     return out
 
 
@@ -264,6 +276,11 @@ def gen_cases(run):
         for uname, user in (("empty", {}), ("files", {"mine.txt": b"user data", "sub": None, "sub/z.bin": b"\x00\x01"})):
             if mine():
                 yield {"scn": scn, "kills": [], "user": uname, "user_files": {k: (v.decode("latin1") if v is not None else None) for k, v in user.items()}}
+    if run.tier == "quick":
+        # one uninterrupted folder-of-zips copy through joblib workers (3 zips on 2 workers: more jobs than workers, not divisible)
+        wscn = {"fn": "folder", "fmt": "zips", "rel": None, "parent": True}
+        if mine():
+            yield {"scn": wscn, "kills": [], "workers": 2}
     if run.tier == "thorough":
         # unzip workers (joblib / loky processes): expensive, a few sampled deaths
         for scn in [s for s in scns if s["fmt"] == "zips" and s["rel"] is None and s["parent"]]:
